@@ -158,13 +158,32 @@ func runAssign(out *vfd.Out, ci int, c map[string]any) {
 		}
 		out.Emit(map[string]any{"ev": "Params", "c": ci, "V": V, "C": C, "E": E, "R": R})
 		out.Emit(map[string]any{"ev": "Epoch", "c": ci, "e": vfd.B(e[:]), "tab": table(g["queries"])})
-		for _, traw := range g["slots"].([]any) {
+		// All results of one epoch group are HELD (the returned slices themselves) until every call of the group has been
+		// made; each Slot record then re-reads what it was handed ("held_*"): an assignment must not change afterwards.
+		type held struct {
+			rec             map[string]any
+			perm, star, nga []types.CoreIndex
+		}
+		helds := []held{}
+		stars, _ := g["stars"].([]any)
+		for si, traw := range g["slots"].([]any) {
 			slot := types.TimeSlot(fromLE(traw))
 			rec := map[string]any{"ev": "Slot", "c": ci, "t": vfd.B(vfd.Bytes(traw)), "off": off}
-			perm, again, nga, pk := []int{}, []int{}, []int{}, []int{}
+			perm, again, nga, pk, star := []int{}, []int{}, []int{}, []int{}, []int{}
+			tstar := []int{}
+			if si < len(stars) {
+				tstar = vfd.B(vfd.Bytes(stars[si]))
+			}
 			inChanged := 0
+			h := held{rec: rec}
 			p, msg := vfd.Guard(func() {
-				perm = cores(extrinsic.VerifPermute(e, slot))
+				h.perm = extrinsic.VerifPermute(e, slot)
+				perm = cores(h.perm)
+				if len(tstar) == 4 {
+					// the assignment of the previous rotation under the same entropy (what G* needs), right after G
+					h.star = extrinsic.VerifPermute(e, types.TimeSlot(fromLE(stars[si])))
+					star = cores(h.star)
+				}
 				blockchain.ResetInstance()
 				psiO := []types.Ed25519Public{}
 				vals := make(types.ValidatorsData, V)
@@ -178,7 +197,8 @@ func runAssign(out *vfd.Out, ci int, c map[string]any) {
 				}
 				blockchain.GetInstance().GetPosteriorStates().SetPsiO(psiO)
 				ga := extrinsic.NewGuranatorAssignments(e, slot, vals)
-				nga = cores(ga.CoreAssignments)
+				h.nga = ga.CoreAssignments
+				nga = cores(h.nga)
 				for i, k := range ga.PublicKeys {
 					switch {
 					case i < V && k == orig[i]:
@@ -197,8 +217,13 @@ func runAssign(out *vfd.Out, ci int, c map[string]any) {
 				again = cores(extrinsic.VerifPermute(e, slot))
 			})
 			rec["permute"], rec["again"], rec["nga"], rec["pk"], rec["in_changed"] = perm, again, nga, pk, inChanged
+			rec["tstar"], rec["star"] = tstar, star
 			rec["panic"], rec["pmsg"] = b2i(p), msg
-			out.Emit(rec)
+			helds = append(helds, h)
+		}
+		for _, h := range helds {
+			h.rec["held_permute"], h.rec["held_star"], h.rec["held_nga"] = cores(h.perm), cores(h.star), cores(h.nga)
+			out.Emit(h.rec)
 		}
 	}
 }
